@@ -1,8 +1,9 @@
 /-
 Kernel-evaluated runs of the model of `XCubeMatchingDecoder.decode` on concrete lattices
-(`decide +kernel`, no `native_decide`): the `KeyError` witness of known finding D16 on 3×2×2, the
-wrong-cube-syndrome counterexample on 2×2×3, a correct run on 2×2×2.  Kept in their own file so
-that the evaluation is not repeated when the property file changes.
+(`decide +kernel`, no `native_decide`).  For the code before 869642d (`XCubeDec.old`): the `KeyError`
+witness of former finding D16 on 3×2×2 and the wrong-cube-syndrome counterexample on 2×2×3.  For the
+repaired code: the same two inputs are decoded to the error itself, and a run on 2×2×2.  Kept in
+their own file so that the evaluation is not repeated when the property file changes.
 -/
 import PanqecVerif.Model.XCubeDecoder
 
@@ -51,12 +52,12 @@ def answersSolve (ev : List (Event Unit)) : Bool :=
 def witnessCall (d : XCubeDec Unit) (s : Vec) : Out Unit Vec :=
   (d.decode witnessSolve witnessBp dropPriors ascending BpSt.init s).2
 
-/-- executable form of `xcube_keyerror_witness_322` -/
+/-- executable form of `old_xcube_keyerror_witness_322` -/
 def keyErrorCheck322 : Bool :=
   match witnessDec 3 2 2 with
   | .error _ => false
   | .ok d =>
-    let r := witnessCall d (measureSyndrome d.H (xError 36 0))
+    let r := witnessCall d.old (measureSyndrome d.H (xError 36 0))
     (match r.val with
       | .error (.keyError k) => k == [1, 4, 0]
       | _ => false) && answersSolve r.events
@@ -64,13 +65,13 @@ def keyErrorCheck322 : Bool :=
 set_option maxRecDepth 100000 in
 theorem keyErrorCheck322_true : keyErrorCheck322 = true := by decide +kernel
 
-/-- executable form of `xcube_cube_syndrome_not_reproduced_223` -/
+/-- executable form of `old_xcube_cube_syndrome_not_reproduced_223` -/
 def cubeSyndromeCheck223 : Bool :=
   match witnessDec 2 2 3 with
   | .error _ => false
   | .ok d =>
     let s := measureSyndrome d.H (xError 36 2)
-    let r := witnessCall d s
+    let r := witnessCall d.old s
     (match r.val with
       | .ok c => c == List.replicate 72 0
       | _ => false) && answersSolve r.events && (measureSyndrome d.H (List.replicate 72 0) != s)
@@ -90,5 +91,33 @@ def okCheck222 : Bool :=
 
 set_option maxRecDepth 100000 in
 theorem okCheck222_true : okCheck222 = true := by decide +kernel
+
+/-- the repaired code on the input of the former `KeyError` witness: X on qubit 0 of 3×2×2 is
+    decoded to itself -/
+def okCheck322 : Bool :=
+  match witnessDec 3 2 2 with
+  | .error _ => false
+  | .ok d =>
+    let r := witnessCall d (measureSyndrome d.H (xError 36 0))
+    (match r.val with
+      | .ok c => c == xError 36 0
+      | _ => false) && answersSolve r.events
+
+set_option maxRecDepth 100000 in
+theorem okCheck322_true : okCheck322 = true := by decide +kernel
+
+/-- the repaired code on the input of the former wrong-syndrome witness: X on qubit 2 of 2×2×3 is
+    decoded to itself -/
+def okCheck223 : Bool :=
+  match witnessDec 2 2 3 with
+  | .error _ => false
+  | .ok d =>
+    let r := witnessCall d (measureSyndrome d.H (xError 36 2))
+    (match r.val with
+      | .ok c => c == xError 36 2
+      | _ => false) && answersSolve r.events
+
+set_option maxRecDepth 100000 in
+theorem okCheck223_true : okCheck223 = true := by decide +kernel
 
 end Panqec.XCube
